@@ -320,6 +320,8 @@ class SymList(SymIterable):
 
     def sym_getitem(self, interp, k):
         if isinstance(k, slice):
+            if k.start is None and k.stop is None and isinstance(k.step, int) and k.step == -1:
+                return self.reversed()            # lst[::-1]: the same elements in reverse order
             if k.step is not None:
                 raise Inapplicable("slice step on a symbolic list")
             lo = z3.IntVal(0) if k.start is None else zint(k.start)
@@ -655,6 +657,10 @@ def loop_rule(name, inv, locals_=None, fields=(), elem_cls=None, reverse=False):
         targets = assigned_names([ast.Expr(value=ast.Constant(value=0))] + node.body)
         tnames = {n.id for n in ast.walk(node.target) if isinstance(n, ast.Name)}
         undeclared = targets - set(locals_) - tnames
+        # a name that does not exist before the loop is a temporary of the body: not live across iterations
+        # (dropped at the loop head; reading it before it is assigned in an iteration stops the run)
+        temporaries = {nm for nm in undeclared if nm not in frame.locals}
+        undeclared -= temporaries
         if undeclared:
             raise Inapplicable(f"{name}: loop body assigns {sorted(undeclared)}, not covered by the loop contract")
         sf = stored_fields(node.body) - {f for _, f in fields}
